@@ -176,3 +176,75 @@ Proof.
   - rewrite fold_insert_merge, Hloop. reflexivity.
   - rewrite Hloop. reflexivity.
 Qed.
+
+(** * CloudKVVStore<MemoryKVVStore>: put_with_version / put / delete stage into the commit log *)
+
+Theorem gen_get_is_model prof s k :
+  gen_MemoryKVVStore_get prof (mk_MemoryKVVStore s) k = Val (OkR (lookup k s)).
+Proof. unfold gen_MemoryKVVStore_get. cbn [MemoryKVVStore_data]. rewrite bmap_get_lookup. reflexivity. Qed.
+
+(** the source-level store of a model state *)
+Definition conc (c : cloud) : CloudKVVStore :=
+  mk_CloudKVVStore (mk_MemoryKVVStore (local c)) (clog c) (cpoison c).
+
+(** a model answer as the generated functions return it; a panic is Trap - the poisoned flag the model sets
+    with it is not represented on the generated side *)
+Definition of_cres (x : cloud * res) : trap (result CloudKVVStore) :=
+  match snd x with
+  | ROk => Val (OkR (conc (fst x)))
+  | RErr => Val (ErrR "VersionMismatch"%string)
+  | RAbort => Trap
+  end.
+
+Ltac kv_cases :=
+  repeat (cbn [bindR bindT expect_some fst snd option_map negb andb local clog cpoison c_setlog conc];
+          match goal with
+          | |- context [if ?b then _ else _] => destruct b eqn:?
+          | |- context [match ?X with Some _ => _ | None => _ end] => destruct X as [[? ?]|] eqn:?
+          | |- context [match ?X with Some _ => _ | None => _ end] => destruct X eqn:?
+          end).
+
+Theorem gen_cloud_pwv_is_model prof c k ver val :
+  gen_CloudKVVStore_put_with_version prof (conc c) k ver val = of_cres (c_pwv c k ver val).
+Proof.
+  destruct c as [loc lg po].
+  unfold gen_CloudKVVStore_put_with_version, c_pwv, c_pwv_gen, with_log, staged_lower, judge, of_cres, conc, c_poison.
+  cbv beta zeta.
+  cbn [CloudKVVStore_commit_log_poisoned CloudKVVStore_commit_log CloudKVVStore_local local clog cpoison andb].
+  destruct po; [reflexivity|].
+  destruct lg as [l|]; [|reflexivity].
+  cbn [expect_some bindT].
+  rewrite !gen_get_version_is_model, !gen_get_is_model, !bmap_get_lookup, !bmap_insert_upsert.
+  unfold version_of. unfold vv, Kvv.value, key, store, kvv in *.
+  repeat match goal with
+         | |- context [match ?X with Some _ => _ | None => _ end] =>
+             match X with lookup _ _ => destruct X as [[? ?]|] end
+         | |- context [option_map fst ?X] => match X with lookup _ _ => destruct X as [[? ?]|] end
+         end;
+    cbn [bindR bindT expect_some fst snd option_map];
+    repeat match goal with |- context [if ?b then _ else _] => destruct b eqn:? end;
+    try rewrite bytes_eqb_val_eqb in *; unfold Kvv.value in *;
+    cbn [negb fst snd c_setlog local clog cpoison conc] in *; try reflexivity; try congruence;
+    try (match goal with H : negb ?x = _, H2 : ?x = _ |- _ => rewrite H2 in H; discriminate H end).
+Qed.
+
+Lemma c_pwv_refusal_keeps c k ver val : snd (c_pwv c k ver val) = RErr -> fst (c_pwv c k ver val) = c.
+Proof.
+  unfold c_pwv, c_pwv_gen, with_log. destruct (cpoison c); [discriminate|]. destruct (clog c); [|discriminate].
+  destruct (true && staged_lower s k ver); [reflexivity|].
+  destruct (judge (lookup k (local c)) ver val); cbn [fst snd]; congruence.
+Qed.
+
+Theorem gen_cloud_put_is_model prof c k val :
+  gen_CloudKVVStore_put prof (conc c) k val = of_cres (c_put prof c k val).
+Proof.
+  unfold gen_CloudKVVStore_put, c_put, c_put_gen, next_version. unfold conc at 1. cbn [CloudKVVStore_local].
+  rewrite gen_get_version_is_model. cbn [bindR]. fold (conc c).
+  destruct (version_of (local c) k) as [v|].
+  - destruct (add_p prof v 1) as [n|]; cbn [bindT]; [apply gen_cloud_pwv_is_model | reflexivity].
+  - cbn [bindT]. apply gen_cloud_pwv_is_model.
+Qed.
+
+Theorem gen_cloud_delete_is_model prof c k :
+  gen_CloudKVVStore_delete prof (conc c) k = of_cres (c_put prof c k []).
+Proof. unfold gen_CloudKVVStore_delete. apply gen_cloud_put_is_model. Qed.
